@@ -28,14 +28,17 @@ def rule_shrink_guards(ctx, rule="C13-guard"):
     if not b:
         return
     newcap = r"^core::cmp::Ord::max\(repr::heap_buffer::HeapBuffer::len\(.*p1.*\), p2\)$"
-    is_gate = lambda n: n.startswith("repr::heap_buffer::") and n in F.bodies and cg.may_allocate(n)
+    # (any operation of the crate that can allocate: HeapBuffer constructors / realloc, but also
+    # Repr::with_capacity, Repr::from_str .. when shrink_to is routed through them)
+    from guards import anchors
+    is_gate = lambda n: n in F.bodies and n in anchors(F) and n != b.path and (n.startswith("repr::heap_buffer::") or n.startswith("repr::Repr::")) and cg.may_allocate(n)
     sites = inlined_sites(b, is_gate)
     for st in sites:
         gs = st.guards()
         smaller = any(g[0] == "cmp2" and ((g[1] == "Lt" and re.search(newcap, g[2]) and "HeapBuffer::capacity(" in g[3]) or (g[1] == "Gt" and re.search(newcap, g[3]) and "HeapBuffer::capacity(" in g[2])) for g in gs)
         ctx.ob(rule, b.path, "only-when-smaller:" + st.label(), smaller, line=st.line, how="dominated by max(len, min) < old capacity",
                detail="%s in shrink_to is not behind `new_capacity < old_capacity`: a shrink request at or above the current capacity can reallocate, grow or fail" % st.name)
-        cap = st.desc(1)
+        cap = st.desc(len(st.t["args"]) - 1)      # (the capacity is the last argument: realloc(self, n), with_capacity(n))
         ctx.ob(rule, b.path, "capacity=request:" + st.label(), re.search(newcap, cap) is not None, line=st.line, how="capacity operand = max(len, min_capacity)",
                detail="%s in shrink_to is sized with %s instead of max(len, min_capacity)" % (st.name, cap))
     ctx.need(rule, b.path, "sites", len(sites) >= 2, "shrink_to has %d buffer-changing call sites (expected the in-place and the shared one)" % len(sites), how="%d buffer-changing sites" % len(sites))
